@@ -91,6 +91,11 @@ pub enum Act {
     SetGlobalMax(u64),
     /// controller only: Sim::set_message_latency_curve (lambda * 1000)
     SetCurve(u64),
+    /// controller only: Sim::set_link_fail_rate(a, b, 0.0) — the link stays as healthy as it was; no
+    /// latency setting may change through it
+    SetLinkFailRateZero(Sel, Sel),
+    /// controller only: Sim::set_fail_rate(0.0)
+    SetFailRateZero,
     /// controller only: record what Sim::links lists
     Sample,
     /// controller only: remember the messages currently listed on the link a-b (ranks for `Deliver`)
@@ -115,6 +120,8 @@ impl Act {
             Act::Release(..) => "release",
             Act::SetLinkLatency(..) => "set_link_latency",
             Act::SetLinkMaxLatency(..) => "set_link_max_message_latency",
+            Act::SetLinkFailRateZero(..) => "set_link_fail_rate_zero",
+            Act::SetFailRateZero => "set_fail_rate_zero",
             Act::SetGlobalMax(..) => "set_max_message_latency",
             Act::SetCurve(..) => "set_message_latency_curve",
             Act::Sample => "links_sample",
@@ -133,6 +140,7 @@ impl Act {
             | Act::Hold(a, b)
             | Act::Release(a, b)
             | Act::SetLinkLatency(a, b, _)
+            | Act::SetLinkFailRateZero(a, b)
             | Act::SetLinkMaxLatency(a, b, _) => Some((a, b)),
             _ => None,
         }
@@ -146,6 +154,7 @@ impl Act {
             | Act::Hold(a, b)
             | Act::Release(a, b)
             | Act::SetLinkLatency(a, b, _)
+            | Act::SetLinkFailRateZero(a, b)
             | Act::SetLinkMaxLatency(a, b, _) => Some((a, b)),
             _ => None,
         }
@@ -764,7 +773,7 @@ fn snapshot(sim: &Sim<'_>, ctx: &Ctx) -> Vec<LinkSnap> {
     out
 }
 
-fn apply_from_ctl(sim: &Sim<'_>, ctx: &Ctx, act: &Act, marks: &mut BTreeMap<(usize, usize), Vec<Listed>>) {
+fn apply_from_ctl(sim: &mut Sim<'_>, ctx: &Ctx, act: &Act, marks: &mut BTreeMap<(usize, usize), Vec<Listed>>) {
     let v6 = ctx.net.cfg.ipv6;
     let t = us(sim.elapsed());
     if let Act::Seq(v) = act {
@@ -815,6 +824,8 @@ fn apply_from_ctl(sim: &Sim<'_>, ctx: &Ctx, act: &Act, marks: &mut BTreeMap<(usi
         Act::Release(a, b) => with2!(resolve(a, v6), resolve(b, v6), |x, y| sim.release(x, y)),
         Act::SetLinkLatency(a, b, v) => with2!(resolve(a, v6), resolve(b, v6), |x, y| sim.set_link_latency(x, y, Duration::from_micros(*v))),
         Act::SetLinkMaxLatency(a, b, v) => with2!(resolve(a, v6), resolve(b, v6), |x, y| sim.set_link_max_message_latency(x, y, Duration::from_micros(*v))),
+        Act::SetLinkFailRateZero(a, b) => with2!(resolve(a, v6), resolve(b, v6), |x, y| sim.set_link_fail_rate(x, y, 0.0)),
+        Act::SetFailRateZero => sim.set_fail_rate(0.0),
         Act::SetGlobalMax(v) => sim.set_max_message_latency(Duration::from_micros(*v)),
         Act::SetCurve(milli) => sim.set_message_latency_curve(*milli as f64 / 1000.0),
         Act::Mark(a, b) => {
@@ -872,11 +883,11 @@ pub fn execute(net: &Net, keep: bool) -> (Trace, Log) {
                 let _ = at;
                 let sample = net.sample_links && !matches!(act, Act::Sample | Act::Mark(..));
                 if sample {
-                    apply_from_ctl(&sim, &ctx, &Act::Sample, &mut marks);
+                    apply_from_ctl(&mut sim, &ctx, &Act::Sample, &mut marks);
                 }
-                apply_from_ctl(&sim, &ctx, act, &mut marks);
+                apply_from_ctl(&mut sim, &ctx, act, &mut marks);
                 if sample {
-                    apply_from_ctl(&sim, &ctx, &Act::Sample, &mut marks);
+                    apply_from_ctl(&mut sim, &ctx, &Act::Sample, &mut marks);
                 }
             }
             ctx.step.set(s);
@@ -889,7 +900,7 @@ pub fn execute(net: &Net, keep: bool) -> (Trace, Log) {
             }
         }
         if net.sample_links {
-            apply_from_ctl(&sim, &ctx, &Act::Sample, &mut marks);
+            apply_from_ctl(&mut sim, &ctx, &Act::Sample, &mut marks);
         }
         drop(sim);
     });
